@@ -41,7 +41,21 @@ const genRule = "clusters drawn from the PCG stream (VERIF_SEED, case index) by 
 
 // registerSched registers the scheduler-side checks.
 func registerSched() {
-	run.Register(&SchedCheck{Id: "C01", Profile: "tight", Quick: 1000, Thorough: 8000,
+	// every fourth case of C01 and C02 is about multi-device fraction requests beside shared, idle and releasing devices
+	// on 1-2 nodes of 2-4 devices, GPU spread in 60% of the cases: half of them from the "sharing" profile of the
+	// generic generator, half from gen.Sharing, which gives every device a role
+	sharingShare := func(profile string) func(seed int64, idx int, tier string) *spec.Case {
+		return func(seed int64, idx int, tier string) *spec.Case {
+			if idx%8 == 3 {
+				return gen.Generate("sharing", seed, idx, tier)
+			}
+			if idx%8 == 7 {
+				return gen.Sharing(seed, idx, tier)
+			}
+			return gen.Generate(profile, seed, idx, tier)
+		}
+	}
+	run.Register(&SchedCheck{Id: "C01", Profile: "tight", Quick: 1000, Thorough: 8000, Gen: sharingShare("tight"),
 		Oracle: func(m *oracle.Model, res *sched.CycleResult, after *spec.Objects, c *spec.Case, st *oracle.Stats) []run.Violation {
 			out := oracle.CheckC01(m, res.Events, res.Cycle, st)
 			// DRA: claimed devices are a node resource too (oracle/dra.go)
@@ -51,7 +65,7 @@ func registerSched() {
 			"About 30% of the cases carry Dynamic Resource Allocation objects (DeviceClass, node-local ResourceSlices with 1-4 devices, ResourceClaims of 1-2 devices, see gen/dra.go); clause claimed-device-conservation: over the store before the cycle and the successful Binds, no device is allocated to two claims, every allocated device belongs to a slice of the selected node, an allocated claim keeps its devices and its pod goes to their node.",
 		Assume: []string{"CSI capacity is not checked", "pod slots of future reservation pods are not charged to the bind that opens a GPU group",
 			"DRA devices are node-local, of one non-GPU device class, requested by exact count; device taints, selectors, shared/consumable capacity and GPU-class claims are not generated"}})
-	run.Register(&SchedCheck{Id: "C02", Profile: "fractions", Quick: 1000, Thorough: 8000, Oracle: cyc(oracle.CheckC02),
+	run.Register(&SchedCheck{Id: "C02", Profile: "fractions", Quick: 1000, Thorough: 8000, Oracle: cyc(oracle.CheckC02), Gen: sharingShare("fractions"),
 		RuleText: genRule + "Non-trivial: a case that binds a fractional pod into a group that already has a sharer, binds a multi-fraction pod, or binds on a node with <=1 free GPU device.",
 		Assume:   []string{"one accounting unit (1/deviceMemory) of slack per sharer", "device identity of whole-GPU pods is not observable; checked as whole+shared<=count"}})
 	run.Register(&SchedCheck{Id: "C03", Profile: "gangs", Quick: 1000, Thorough: 8000, Oracle: cyc(oracle.CheckC03), SkipFaulty: true,
